@@ -1,6 +1,8 @@
 import AwModel.Query.Render
 import AwModel.Query.RegistryGen
+import AwModel.Query.Pipeline
 import Driver.Proto
+import Driver.Grp
 /-!
 Driver area `q` (query language).
 
@@ -9,6 +11,10 @@ Driver area `q` (query language).
   q denote <ret> <env> <prog>           -> ok <val>                   | err <Kind>
   q render <seed> <table> <prog>        -> ok <text>
   q registry                            -> ok <n> <entry>*
+  q pipe   <S> <E> <buckets> <env> <text> -> ok <val>               | err <Kind>
+      (whole query over a memory-store state: <buckets> = list of (<id> <hostname> <events>), events in
+       storage order as in `grp`; every modelled builtin body — `Pipeline.fullApply` — and the
+       generated registry; unmodelled builtins answer symbolically)
 
 <env> = list of (<name> <str>) bindings added to `create_namespace()`; <ret> = list of
 (<name> <kindchar>): result kind of the symbolic builtins (default `l`); <table> = list of
@@ -115,6 +121,15 @@ def handle : List String → String
   | "render" :: r => runR (do
       let seed ← pNat; let table ← pList pS; let p ← pProg
       pure ("ok " ++ hexS (render p (mkLayout seed table)))) r
+  | "pipe" :: r => runR (do
+      let S ← pInt; let E ← pInt
+      let bs ← pList (do
+        let b ← pStr; let h ← pStr; let evs ← pList Grp.pEvt
+        pure (b, (({ name := none, type := "t", client := "c", hostname := h, created := "", data := "{}" } : Aw.Store.Meta), evs)))
+      let env ← pEnv; let text ← pS
+      let st : Aw.Store.Memory.St Aw.Group.Data := bs
+      pure (showRes showVal (runQuery Registry.registry
+        (Pipeline.fullApply (Reads.ofMemory st) S E (symApply [])) env text))) r
   | "registry" :: r => runR (do
       pure ("ok " ++ showList showEntry Registry.registry)) r
   | _ => "bad q-op"
